@@ -17,7 +17,7 @@ its last synced content or any prefix of its current content), and that the
 names renameio invents differ from the destination (`TempNames`, checked on
 every real trace by the driver).
 -/
-import AGH.Lemmas.FSRollback
+import AGH.Lemmas.FSCrash
 import AGH.Gen.C14WriteSites
 namespace AGH.C14
 open AGH
@@ -116,6 +116,28 @@ theorem C14_installed_version_never_modified (dest : Path) (s₀ : FS) (hwf : WF
   refine ⟨hc, fun x hx => ?_⟩
   simp only [Survives, hd, Bool.false_eq_true, if_false] at hx
   rw [hx, hc]
+
+/-! ## Concurrent saves of the same path -/
+
+/-- The set monitor the driver runs on interleaved traces of concurrent saves is
+exact for the set form of the spec. -/
+theorem C14_monitor_set_exact (ok : Option Content → Bool) (dest : Path) (s : FS) (es : List Sys) :
+    firstBadP ok dest s es = none ↔ ∀ j, OKAtP ok (run s (es.take j)) dest :=
+  firstBadP_none_iff ok dest s es
+
+/-- ANY interleaving of any number of writers (and of anything else the process
+does): if every step either does not name `dest` or renames onto it a temporary
+file that is complete (a member of `V`), synced and closed — which is what each
+atomic saver does, whatever the others are doing — then at every instant `dest`
+shows, and a crash leaves, the version it had or one of the complete versions
+`V`: two racing saves end with one of the two complete files, never a mixture. -/
+theorem C14_any_interleaving (dest : Path) (V : List Content) (es : List Sys) (s : FS)
+    (v : Option Content) (hwf : WF s) (h : Settled s dest v) (hg : GoodTrace dest V s es)
+    (j : Nat) :
+    ∃ w, (w = v ∨ ∃ c ∈ V, w = some c) ∧ visible (run s (es.take j)) dest = w ∧
+      ∀ c, AfterCrash (run s (es.take j)) dest c → c = w := by
+  obtain ⟨w, hw, hs⟩ := goodTrace_settled dest V es s v hwf h hg j
+  exact ⟨w, hw, settled_visible hs, fun c hc => settled_crash hs hc⟩
 
 /-! ## Negative witnesses: what the positive theorems exclude -/
 
@@ -302,6 +324,151 @@ theorem C14_durable_sites_crash_safe (st : Gen.Site) (hst : st ∈ Gen.sites)
     · exact settled_new_ok _ h'
   · simp [siteProg, h] at hp
   · simp [siteProg, h] at hp
+
+/-! ## Crash safety under the explicit crash models (AGH/Spec/Crash.lean)
+
+Chain from the code to this section, and where each link is established:
+1. every call writing a durable path is `maybe.WriteFile` or a pending file that is
+   finalised, through a wrapper that only delegates — PROVED over the table the
+   extractor regenerates from the current tree (`C14_durable_sites_atomic`,
+   `C14_pending_files_finalised`, `C14_wrapper_delegates`, `C14_durable_paths_never_removed`);
+   the extractor itself is trusted;
+2. such a call emits the syscall program `Save.prog` (probe, exclusive create, writes,
+   fsync, close, rename | close, unlink) — TRANSCRIBED from renameio and SAMPLED on every run
+   by strace of real saves of all three kinds (`instanceOf` in the driver, AGREE/DISAGREE);
+   `C14_site_programs_are_saves` connects the table's op codes to `Save.prog`;
+3. for every list of such saves, every crash point and every admissible loss set the
+   destination holds a complete version — PROVED below. -/
+
+/-- The three models are nested: what the strict model allows the ordered-journal
+model allows, and what that allows the POSIX model allows. -/
+theorem C14_crash_models_nested (s₀ : FS) (es : List Sys) (out : Dir) :
+    (CrashDirStrict s₀ es out → CrashDirOrdered s₀ es out) ∧
+      (CrashDirOrdered s₀ es out → CrashDirPosix s₀ es out) := by
+  constructor
+  · intro h; rw [h]; exact dirSnaps_last s₀ es
+  · intro h
+    unfold CrashDirOrdered at h
+    unfold CrashDirPosix
+    cases hds : dirSnaps s₀ es with
+    | nil => exact absurd hds (dirSnaps_ne_nil s₀ es)
+    | cons d ds => rw [hds] at h; exact lossy_prefix d ds h
+
+/-- The crash model the earlier theorems use (`AfterCrash`) is the strict directory
+model with a less pessimistic data layer. -/
+theorem C14_strict_model_is_an_instance (s : FS) (p : Path) (c : Option Content)
+    (h : AfterCrash s p c) : AfterCrashIn s.names s p c := by
+  cases c with
+  | none => exact h
+  | some x =>
+    obtain ⟨i, hi, hs⟩ := h
+    refine ⟨i, hi, fun hd => ?_⟩
+    simpa [Survives, hd] using hs
+
+/-- EVERY crash point, EVERY admissible loss set, pessimistic POSIX model (hence
+also the ordered-journal and the strict one): after any number of saves of any
+sizes — committed, abandoned, failed at any syscall — cut at any prefix `k` of the
+concatenated syscall trace, whichever pending directory operations the crash
+loses and whatever it does to unsynced data, the destination holds the initial
+version or one of the COMPLETE versions saved (or is still absent if it never
+existed): never an empty, truncated or mixed file.  No `fsync(dir)` is assumed;
+the directory is taken to be durable at the start (`s₀`). -/
+theorem C14_crash_safe_all_crash_points (dest : Path) (s₀ : FS) (old : Option Content)
+    (hwf : WF s₀) (h0 : Settled s₀ dest old) (svs : List Save)
+    (hn : ∀ sv ∈ svs, TempNames sv.pr sv.tmp dest) (k : Nat) (out : Dir) (c : Option Content)
+    (hcd : CrashDirPosix s₀ ((performedSaves s₀ dest svs).take k) out)
+    (hc : AfterCrashIn out (run s₀ ((performedSaves s₀ dest svs).take k)) dest c) :
+    c ∈ old :: svs.map (fun sv => some sv.new) := by
+  -- the surviving entry of `dest` is the entry of some instant j ≤ k
+  have hsnap : ∃ d ∈ dirSnaps s₀ ((performedSaves s₀ dest svs).take k), out dest = d dest := by
+    unfold CrashDirPosix at hcd
+    cases hds : dirSnaps s₀ ((performedSaves s₀ dest svs).take k) with
+    | nil => exact absurd hds (dirSnaps_ne_nil _ _)
+    | cons d ds =>
+      rw [hds] at hcd
+      rcases lossy_entry hcd dest with h | ⟨d', hd', h⟩
+      · exact ⟨d, by simp, h⟩
+      · exact ⟨d', hd', h⟩
+  obtain ⟨d, hd, hout⟩ := hsnap
+  obtain ⟨j, hj⟩ := dirSnaps_instant hd
+  rw [List.take_take] at hj
+  have hjk : min j k ≤ k := Nat.min_le_right j k
+  obtain ⟨_, v, hv, hs⟩ := saves_instants dest svs s₀ old hwf h0 hn (min j k)
+  have hnames : out dest = (run s₀ ((performedSaves s₀ dest svs).take (min j k))).names dest := by
+    rw [hout, hj]
+  cases c with
+  | none =>
+    have hnone : (run s₀ ((performedSaves s₀ dest svs).take (min j k))).names dest = none := by
+      rw [← hnames]; exact hc
+    cases v with
+    | none => exact hv
+    | some cv => obtain ⟨i, hi, _⟩ := hs; rw [hnone] at hi; cases hi
+  | some x =>
+    obtain ⟨i, hi, hsurv⟩ := hc
+    have hi' : (run s₀ ((performedSaves s₀ dest svs).take (min j k))).names dest = some i := by
+      rw [← hnames]; exact hi
+    cases v with
+    | none => simp only [Settled] at hs; rw [hs] at hi'; cases hi'
+    | some cv =>
+      have hf := settled_stays_frozen hwf (performedSaves_no_openWr dest svs s₀) hjk hi' hs
+      obtain ⟨hcache, _, hdirty, _⟩ := hf
+      have : x = cv := by rw [hsurv hdirty, hcache]
+      rw [this]; exact hv
+
+/-- PARTIAL form of the property's literal wording: if the directory was durable
+when the save began (journal committed, or `fsync(dir)`), a crash at any point of
+that save under any of the three models leaves exactly the previous or the new
+version. -/
+theorem C14_previous_or_new_partial (dest : Path) (s₀ : FS) (old : Option Content)
+    (hwf : WF s₀) (h0 : Settled s₀ dest old) (sv : Save) (hn : TempNames sv.pr sv.tmp dest)
+    (k : Nat) (out : Dir) (c : Option Content)
+    (hcd : CrashDirPosix s₀ ((performedSaves s₀ dest [sv]).take k) out)
+    (hc : AfterCrashIn out (run s₀ ((performedSaves s₀ dest [sv]).take k)) dest c) :
+    IsVersion old sv.new c := by
+  have := C14_crash_safe_all_crash_points dest s₀ old hwf h0 [sv]
+    (fun x hx => by simp at hx; subst hx; exact hn) k out c hcd hc
+  simpa [IsVersion] using this
+
+/- The full statement "after a crash at any point the path holds the complete PREVIOUS
+or the complete NEW version" over SEVERAL saves is false in the ordered-journal and POSIX
+models, because renameio does not fsync the directory: the renames of earlier saves may
+not be durable yet.  What holds there is `C14_crash_safe_all_crash_points` (a complete
+version, possibly an older one); the witness: -/
+
+/-- Two completed saves ([1,2,3] → [7,7,7] → [9,9,9]); a crash before the journal
+commits (ordered model, all pending directory operations lost) brings back [1,2,3],
+which is neither the previous nor the new version — but complete. -/
+theorem C14_counterexample_stale_version_without_dir_fsync :
+    visible (run (FS.init [100] (some [1, 2, 3]))
+        (performedSaves (FS.init [100] (some [1, 2, 3])) [100]
+          [{ pr := ⟨[46, 7], [46, 8], 5, 5, .sameMount⟩, tmp := [46, 9], fd := 5,
+             chunks := [[7], [7, 7]], commit := true },
+           { pr := ⟨[46, 9], [46, 10], 5, 5, .sameMount⟩, tmp := [46, 11], fd := 5,
+             chunks := [[9], [9, 9]], commit := true }])) [100] = some [9, 9, 9] ∧
+      ∃ out, CrashDirOrdered (FS.init [100] (some [1, 2, 3]))
+          (performedSaves (FS.init [100] (some [1, 2, 3])) [100]
+            [{ pr := ⟨[46, 7], [46, 8], 5, 5, .sameMount⟩, tmp := [46, 9], fd := 5,
+               chunks := [[7], [7, 7]], commit := true },
+             { pr := ⟨[46, 9], [46, 10], 5, 5, .sameMount⟩, tmp := [46, 11], fd := 5,
+               chunks := [[9], [9, 9]], commit := true }]) out ∧
+        AfterCrashIn out (run (FS.init [100] (some [1, 2, 3]))
+          (performedSaves (FS.init [100] (some [1, 2, 3])) [100]
+            [{ pr := ⟨[46, 7], [46, 8], 5, 5, .sameMount⟩, tmp := [46, 9], fd := 5,
+               chunks := [[7], [7, 7]], commit := true },
+             { pr := ⟨[46, 9], [46, 10], 5, 5, .sameMount⟩, tmp := [46, 11], fd := 5,
+               chunks := [[9], [9, 9]], commit := true }])) [100] (some [1, 2, 3]) := by
+  refine ⟨by decide, (FS.init [100] (some [1, 2, 3])).names, ?_, ⟨0, by decide, fun _ => by decide⟩⟩
+  exact dirSnaps_start (by decide)
+
+/-- Link 2 of the chain: the op codes of the generated table stand for `Save.prog`. -/
+theorem C14_site_programs_are_saves (op : Nat) (hop : op = 0 ∨ op = 1) (sv : Save) (dest : Path)
+    (hs : sv.started = true) :
+    ∃ sv' : Save, siteProg op sv dest = some (sv'.prog dest) ∧ sv'.new = sv.new ∧
+      sv'.pr = sv.pr ∧ sv'.tmp = sv.tmp := by
+  rcases hop with h | h
+  · refine ⟨{ sv with commit := true }, ?_, rfl, rfl, rfl⟩
+    simp [siteProg, h, Save.prog, hs]
+  · exact ⟨sv, by simp [siteProg, h], rfl, rfl, rfl⟩
 
 /-! ## Non-vacuity -/
 
